@@ -31,6 +31,7 @@ import (
 	"time"
 
 	"github.com/prometheus/client_golang/prometheus"
+	fphttp2 "github.com/wi1dcard/fingerproxy/pkg/http2"
 	"github.com/wi1dcard/fingerproxy/pkg/metadata"
 )
 
@@ -40,6 +41,7 @@ type vfWLine struct {
 	Sp string `json:"sp"`
 }
 type vfWReq struct {
+	Proto  string     `json:"proto"` // h1 (raw) | h2 (the fork's Transport)
 	ID     int        `json:"id"`
 	Method string     `json:"method"`
 	Path   string     `json:"path"`
@@ -187,7 +189,63 @@ func vfWRun(t *testing.T, c vfWConfig) vfWOut {
 			}
 		}
 	}
-	if len(c.Requests) > 0 {
+	var h1reqs, h2reqs []vfWReq
+	for _, r := range c.Requests {
+		if r.Proto == "h2" {
+			h2reqs = append(h2reqs, r)
+		} else {
+			h1reqs = append(h1reqs, r)
+		}
+	}
+	if len(h2reqs) > 0 {
+		tr := &fphttp2.Transport{TLSClientConfig: &tls.Config{InsecureSkipVerify: true, ServerName: "vf.test"}}
+		do := func(r vfWReq, tag string) (int, string, error) {
+			req, err := http.NewRequest(r.Method, "https://"+addr+r.Path, nil)
+			if err != nil {
+				return 0, "", err
+			}
+			req.Host = r.Host
+			req.Header.Set("X-Vf-Tag", tag)
+			if len(r.UA) == 0 {
+				req.Header["User-Agent"] = []string{""} // suppresses the transport's default User-Agent
+			} else {
+				req.Header["User-Agent"] = r.UA
+			}
+			if r.Note {
+				req.Header.Set("X-Note", "kube-probe/1.26")
+			}
+			for _, l := range r.Lines {
+				req.Header.Add(vfWSpell(l), l.V)
+			}
+			resp, err := tr.RoundTrip(req)
+			if err != nil {
+				return 0, "", err
+			}
+			b, _ := io.ReadAll(resp.Body)
+			resp.Body.Close()
+			return resp.StatusCode, string(b), nil
+		}
+		base := vfWObs{Headers: map[string][]string{}}
+		if _, _, err := do(vfWReq{Method: "GET", Path: "/baseline", Host: "vf.test", UA: []string{"curl/8"}}, "base2"); err != nil {
+			out.Err = "h2 baseline: " + err.Error()
+			return out
+		}
+		view("base2", &base)
+		for _, r := range h2reqs {
+			o := vfWObs{ID: r.ID, Headers: map[string][]string{}, Baseline: base.Headers, Backend: backendHost}
+			tag := fmt.Sprintf("v%d", r.ID)
+			st, body, err := do(r, tag)
+			if err != nil {
+				o.Err = err.Error()
+			} else {
+				o.Status, o.Body = st, body
+				view(tag, &o)
+			}
+			out.Obs = append(out.Obs, o)
+		}
+		tr.CloseIdleConnections()
+	}
+	if len(h1reqs) > 0 {
 		tc, err := dial("http/1.1")
 		if err != nil {
 			out.Err = "dial: " + err.Error()
@@ -213,7 +271,7 @@ func vfWRun(t *testing.T, c vfWConfig) vfWOut {
 			return out
 		}
 		view("base", &base)
-		for _, r := range c.Requests {
+		for _, r := range h1reqs {
 			o := vfWObs{ID: r.ID, Headers: map[string][]string{}, Baseline: base.Headers, Backend: backendHost}
 			var b strings.Builder
 			tag := fmt.Sprintf("w%d", r.ID)
